@@ -86,8 +86,16 @@ func c08ProgOracle(e *progEnv, res *progStepResult) (sig, what string, descend b
 	return "", "", true
 }
 
+func c08AgedCheck(x *cpuCtx, c *cpuCase) (string, string) {
+	sig, what, _ := c08Check(x, c)
+	return sig, what
+}
+
 func replayC08(raw json.RawMessage) (string, error) {
 	cpuDirtIRQ = true
+	if ok, what, err := cpuAgedReplay(raw, c08AgedCheck); ok {
+		return what, err
+	}
 	var pp progPath
 	if json.Unmarshal(raw, &pp) == nil && len(pp.Syms) > 0 {
 		return progReplay(pp, progSeeds(true), progAlphabetInt(), false, c08ProgOracle)
@@ -127,6 +135,7 @@ func runC08(r *report.Run) {
 	}
 	syms, seeds := progAlphabetInt(), progSeeds(true)
 	st, tr := progSearch(depth, seeds, syms, false, 0x9E3779B9, progVisitOf(r, 0x9E3779B9, c08ProgOracle))
+	tr += cpuAgedAll(r, o.thorough, true, c08AgedCheck) / 2
 	r.Set("program_search", map[string]interface{}{"depth": depth, "alphabet": len(syms), "seed_states": len(seeds), "distinct_states": st, "steps_executed": tr})
 	r.Set("single_step_cases_by_sweep", counts)
 	r.Set("high_address_cases_by_sweep", countsHi)
@@ -140,7 +149,7 @@ func runC08(r *report.Run) {
 			r.Sample(cs)
 		}
 	}
-	r.Set("rule", "the five single-step sweeps with E in {0,1} under the boundary alphabets, the same sweeps again under alphabets concentrated at the top of the address space (DBR $FE/$FF, operands $FFxx, pointers $FFFFFE/$FFFFFF, PC within 4 bytes of $FF:FFFF) and the program search: every Step of both interpreters must return without a runtime failure and every logged bus read/write address must be below 2^24; non-trivial = the step touched bank $FF or page 0 of bank 0 (wrap region)")
+	r.Set("rule", "the five single-step sweeps with E in {0,1} under the boundary alphabets, the same sweeps again under alphabets concentrated at the top of the address space (DBR $FE/$FF, operands $FFxx, pointers $FFFFFE/$FFFFFF, PC within 4 bytes of $FF:FFFF) the program search, and aged CPU objects (every opcode, and every ordered pair of the stack / control-transfer / interrupt opcodes, executed 300 times -- thorough: single opcodes 70000 times -- on the same CPU objects with the state reloaded in between): every Step of both interpreters must return without a runtime failure and every logged bus read/write address must be below 2^24; non-trivial = the step touched bank $FF or page 0 of bank 0 (wrap region)")
 	r.Assume("whole 16 MiB bus mapped to one logging memory; the wrapped *target* of each access is judged by C01 (reference model), here only failure-freedom and the 24-bit bound")
 	c := cpuDefaultCase(0xBD)
 	c.S.DBR, c.Opnd, c.S.X = 0xFF, [3]byte{0xFF, 0xFF, 0}, 0xFFFF
